@@ -27,6 +27,7 @@ import (
 	"strconv"
 	"strings"
 
+	"github.com/btcsuite/btcd/btcec"
 	"github.com/btcsuite/btcutil/base58"
 	"github.com/google/tink/go/insecurecleartextkeyset"
 	"github.com/google/tink/go/keyset"
@@ -451,6 +452,9 @@ func kmsImportable(kt string) (interface{}, bool) {
 	case "p384":
 		k, err := ecdsa.GenerateKey(elliptic.P384(), bytes.NewReader(append(seed, seed...)))
 		return k, err == nil
+	case "secp256k1":
+		k, err := ecdsa.GenerateKey(btcec.S256(), bytes.NewReader(append(seed, seed...)))
+		return k, err == nil
 	}
 	return nil, false
 }
@@ -533,6 +537,13 @@ func kmsRun(input string, c06 bool) string {
 			}
 			id, _, e := k.ImportPrivateKey(priv, kmsKeyTypes[f[1]], opts...)
 			noteErr(e)
+			if e == nil && f[2] == "id" && id != fmt.Sprintf("imported-%d", len(keys)) {
+				// the caller chose an id: that is the id the key has to be under
+				keys = append(keys, &kmsKey{id: id, kt: f[1] + "/named", live: true})
+				returns = append(returns, []byte(id))
+				outs = append(outs, "ok:idignored")
+				continue
+			}
 			if e == nil {
 				nk := &kmsKey{id: id, kt: f[1], live: true}
 				if f[2] == "noid" {
@@ -772,7 +783,7 @@ func kmsGen(r *Rng, tier string, c06 bool) []string {
 				ops = append(ops, "createexp "+r.Pick(kts))
 				nk++
 			case c < 8:
-				ops = append(ops, "import "+r.Pick([]string{"ed25519", "p256", "p384", "p256der"})+" "+r.Pick([]string{"id", "noid", "noid", "dupid"}))
+				ops = append(ops, "import "+r.Pick([]string{"ed25519", "p256", "p384", "p256der", "secp256k1"})+" "+r.Pick([]string{"id", "noid", "noid", "dupid"}))
 				nk++
 			case c < 10 && nk > 0:
 				ops = append(ops, fmt.Sprintf("rotate %d", r.N(nk)))
